@@ -136,6 +136,7 @@ class World:
         d.finish_pair = lambda: None
         d.update_advertisement = lambda: None
         d.async_update_advertisement = lambda: None
+        d.aio_stop_event = asyncio.Event()  # what async_start creates; event delivery consults it
         self.driver = d
 
         def sync_snapshot(_self, info):
